@@ -18,6 +18,13 @@ APPL_LIM = {"Source": {"io": [0.0, 0.01], "pl": [0.0, 1e-5]}, "PLoad": {"vi": [0
 ALL_LIM = {"vi": [0.0, 1.0], "vd": [0.0, 1e-3], "pl": [0.0, 1e-6], "tp": [-40.0, 25.2]}
 
 
+INT_FORMS = [("Source", dict(vo=5, rs=1)), ("PLoad", dict(pwr=1, pwrs=0, rt=3)), ("ILoad", dict(ii=1, iis=0, rt=2)), ("RLoad", dict(rs=33, rt=1)),
+             ("RLoss", dict(rs=1, rt=2)), ("RLoss", dict(rs=0, rt=0)), ("VLoss", dict(vdrop=1, rt=2)), ("VLoss", dict(vdrop=0)),
+             ("Converter", dict(vo=3, eff=1, iq=0, iis=0, rt=2)), ("Converter", dict(vo=3, eff=1)), ("LinReg", dict(vo=3, vdrop=1, ig=0, iis=0, rt=2)),
+             ("PSwitch", dict(rs=1, ig=0, iis=0, rt=2)), ("PMux", dict(rs=1, ig=0, iis=0, rt=2)), ("PMux", dict(rs=[1, 2])),
+             ("Rectifier", dict(vdrop=1, rt=2)), ("Rectifier", dict(vdrop=0, rs=1, ig=0, iq=0, rt=2))]
+
+
 def kind_spec(kind, P, with_lim):
     lim = (APPL_LIM.get(kind, ALL_LIM) if with_lim else None)
     comps = [dict(n="S", k="Source", a=dict(vo=5.0, rs=0.1), p=[], g="", r="", pc=None, lim=None)]
@@ -194,6 +201,10 @@ def gen_cases(tier):
                 P.update({o: opt[o][0] for o in okeys})
                 P[k] = fv
                 yield dict(fam="kind", kind=kind, P=P, lim=True)
+    # every numeric parameter written as a Python int (JSON integer in the file), incl. the lossless converter eff=1
+    for kind, P in INT_FORMS:
+        for lim in (False, True):
+            yield dict(fam="kind", kind=kind, P=P, lim=lim)
     mid = Trees(*SIG_MID)
     for n in ((1, 2) if tier == "quick" else (1, 2, 3)):
         for f in mid.iter_forests(n):
